@@ -74,8 +74,17 @@ def stream_mime(ctx, n):
     from wpull.warc.recorder import WARCRecorder
     rng = ctx.subrng('mime')
     cases = wc.MIMES + wc.BAD_CT + ['a/b;c', 'a/b c', 'a//b', 'é/b', 'a/é', 'a/b\n', 'A1-/b_.+']
+    tok = 'abXY019+.-_!#$%&\'*^`|~'
+    noise = 'ab/+.-_;= ,"()09\t!#$%&\'*^`|~é\x85'
     for _ in range(n):
-        cases.append(''.join(rng.choice('ab/+.-_;= ,"()09\t!#$%&\'*^`|~é\x85') for _ in range(rng.choice([1, 2, 3, 5, 9]))))
+        r = rng.random()
+        if r < 0.6:
+            v = (''.join(rng.choice(tok) for _ in range(rng.choice([1, 2, 5]))) + rng.choice(['/', '/', '/', '', '//', ' /']) +
+                 ''.join(rng.choice(tok) for _ in range(rng.choice([0, 1, 2, 6]))) +
+                 rng.choice(['', '', ';x=1', ' ', ',', '(', 'é', '/z', '\n']))
+        else:
+            v = ''.join(rng.choice(noise) for _ in range(rng.choice([1, 2, 3, 5, 9])))
+        cases.append(v)
     replies = ctx.model.ask(['warc mime ' + enc(v) for v in cases])
     for v, rep in zip(cases, replies):
         real = enc(WARCRecorder.parse_mimetype(v) or '-')
@@ -90,9 +99,21 @@ def stream_status(ctx, n):
     cases = [b'', b'HTTP/1.1 200 OK', b'HTTP/1.1 200', b'HTTP/1.1  2000 OK', b'HTTP/1.1\t7', b'HTTP/1. 200', b'HTTP/.1 200',
              b'HTTP/1.1200 OK', b'http/1.1 200 OK', b'HTTP/1.1 OK', b'HTTP/12.34 099 x\r']
     for _ in range(n):
-        cases.append(bytes(rng.choice(b'HTP/1.019 \t\rOKx') for _ in range(rng.choice([3, 8, 12, 16]))) if rng.random() < 0.3 else
-                     b'HTTP/' + bytes(rng.choice(b'019.x ') for _ in range(rng.choice([1, 3, 4]))) +
-                     bytes(rng.choice(b' \t20x') for _ in range(rng.choice([0, 1, 2, 5]))) + rng.choice([b'', b' OK', b'OK']))
+        r = rng.random()
+        if r < 0.6:
+            def pick(good, bad):
+                return rng.choice(good) if rng.random() < 0.9 else rng.choice(bad)
+            v = (pick([b'HTTP/'], [b'HTTP', b'http/', b' HTTP/']) + pick([b'1', b'0', b'11'], [b'', b'x']) +
+                 pick([b'.'], [b'', b',']) + pick([b'1', b'0', b'99'], [b'', b'1x']) +
+                 pick([b' ', b'  ', b'\t', b' \t'], [b'', b'\r']) +
+                 pick([b'200', b'404', b'7', b'42', b'0200', b'99999', b'2x0'], [b'', b'x', b'-1']) +
+                 rng.choice([b'', b' OK', b'OK', b' \t Not Found\r', b'\r\n', b' 5']))
+        elif r < 0.8:
+            v = bytes(rng.choice(b'HTP/1.019 \t\rOKx') for _ in range(rng.choice([3, 8, 12, 16])))
+        else:
+            v = (b'HTTP/' + bytes(rng.choice(b'019.x ') for _ in range(rng.choice([1, 3, 4]))) +
+                 bytes(rng.choice(b' \t20x') for _ in range(rng.choice([0, 1, 2, 5]))) + rng.choice([b'', b' OK', b'OK']))
+        cases.append(v)
     replies = ctx.model.ask(['warc status ' + enc(v) for v in cases])
     for v, rep in zip(cases, replies):
         try:
